@@ -187,10 +187,140 @@ def rule_kind_tables(ctx, R="C13.4"):
     ctx.floor(R, "opcode / kind table rows", n, 30)
 
 
+def eval_ir_lifting(ctx, R="C13.5"):
+    """The AST-to-IR conversion of one node by evaluation: every child of the node is a marker whose own conversion
+    yields a second marker; the IR node returned must hold, under the field of the same name and in the same order,
+    the converted children - for every statement and expression kind the conversion handles, with children that are
+    or are not number literals (so that no `canonical operand order` can slip in)."""
+    import itertools
+
+    import a10
+    import passeval
+    from finfun import E, S, Unsupported
+    from passeval import O, Panic, Sink, V
+
+    ASTF_ = "program_structure/src/abstract_syntax_tree/ast.rs"
+    IRF_ = "program_structure/src/intermediate_representation/ir.rs"
+    ctx.rule(R, "the conversion of a statement or expression to the intermediate representation keeps every child in its place: the converted left operand is the left operand, the converted condition the condition, list elements keep their order")
+    try:
+        w = passeval.PassWorld([ASTF_, IRF_, IRL], IRL)
+    except Exception as e:  # noqa: BLE001
+        return ctx.missing(R, "lifting evaluator", str(e))
+    w.lenient_opaque = True
+    n = 0
+    decided = 0
+    for enum in ("Expression", "Statement"):
+        key = (enum, "try_lift")
+        if key not in w.methods:
+            ctx.missing(R, "TryLift for ast::" + enum)
+            continue
+        fn = w.methods[key][0]
+        d = a10.enum_def(ASTF_, enum)
+        for vname, vdef in d.items():
+            kids = [(f["name"], f["ty"].replace(" ", "")) for f in vdef["fields"] if f["ty"].replace(" ", "") in ("Expression", "Box<Expression>", "Vec<Expression>")]
+            if not kids:
+                continue
+            slots = []
+            for nm, ty in kids:
+                slots += [(nm, None)] if not ty.startswith("Vec") else [(nm, 0), (nm, 1)]
+            problems, unsupported, worlds = [], None, 0
+            for numeric in itertools.product((False, True), repeat=min(len(slots), 3)):
+                for access_empty in ((True, False) if any(f["ty"].replace(" ", "") == "Vec<Access>" for f in vdef["fields"]) else (True,)):
+                    lifted = {}
+
+                    def leaf(tag, isnum, lifted=lifted):
+                        out = ("O", "lifted:" + tag, ())
+                        me = ("O", "child:" + tag, (("try_lift", ("PY", lambda *a, out=out: S("Ok", out))), ("is_number", isnum), ("is_empty", False)))
+                        lifted[tag] = out
+                        return me
+
+                    fields = {}
+                    si = 0
+                    for f in vdef["fields"]:
+                        nm, ty = f["name"], f["ty"].replace(" ", "")
+                        if ty in ("Expression", "Box<Expression>"):
+                            fields[nm] = leaf(nm, numeric[si] if si < len(numeric) else False)
+                            si += 1
+                        elif ty == "Vec<Expression>":
+                            fields[nm] = ("L", (leaf(nm + "[0]", numeric[si] if si < len(numeric) else False), leaf(nm + "[1]", numeric[si + 1] if si + 1 < len(numeric) else False)))
+                            si += 2
+                        elif ty == "Meta":
+                            fields[nm] = ("O", "meta", (("try_lift", ("PY", lambda *a: S("Ok", O("lifted-meta")))),))
+                        elif ty == "String":
+                            fields[nm] = ("O", "name", (("try_lift", ("PY", lambda *a: S("Ok", O("lifted-name")))),))
+                        elif ty == "Vec<Access>":
+                            fields[nm] = ("L", ()) if access_empty else ("L", (("O", "access0", (("try_lift", ("PY", lambda *a: S("Ok", O("lifted-access0")))),)),))
+                        elif ty == "Vec<LogArgument>":
+                            fields[nm] = ("L", (("O", "logarg", (("try_lift", ("PY", lambda *a: S("Ok", O("lifted-logarg")))),)),))
+                        elif ty in ("ExpressionInfixOpcode", "ExpressionPrefixOpcode", "AssignOp", "VariableType"):
+                            en_ = a10.enum_def(ASTF_, ty)
+                            first = [k_ for k_, v_ in en_.items() if not v_["fields"]]
+                            fields[nm] = E(ty, "Sub" if "Sub" in en_ else first[0])
+                        else:
+                            fields[nm] = O("%s.%s" % (vname, nm))
+                    tuple_like = all((f.get("name") or "").isdigit() for f in vdef["fields"])
+                    node = S(vname, *[fields[f["name"]] for f in vdef["fields"]]) if tuple_like else V(enum, vname, **fields)
+                    try:
+                        res = w.call_fn(fn, [node, ("T", ()), Sink()])
+                    except Unsupported as u:
+                        unsupported = str(u)
+                        break
+                    except Panic:
+                        unsupported = "panics: handled by the caller"
+                        break
+                    worlds += 1
+                    n += 1
+                    if not (isinstance(res, tuple) and len(res) > 2 and res[0] == "S" and res[1] == "Ok"):
+                        problems.append("returns %r" % (res,))
+                        continue
+
+                    def places(x, path=(), depth=0):
+                        """(field path, position) of every converted child inside the IR node"""
+                        if depth > 6:
+                            return
+                        if isinstance(x, tuple) and x and x[0] == "O" and x[1].startswith("lifted:"):
+                            yield x, path
+                        elif isinstance(x, tuple) and len(x) > 3 and x[0] == "V":
+                            for k_, v_ in x[3].items():
+                                yield from places(v_, path + (k_,), depth + 1)
+                        elif isinstance(x, tuple) and x and x[0] == "L":
+                            for i_, v_ in enumerate(x[1]):
+                                yield from places(v_, path + (i_,), depth + 1)
+                        elif isinstance(x, Sink):
+                            for i_, v_ in enumerate(x.items):
+                                yield from places(v_, path + (i_,), depth + 1)
+                        elif isinstance(x, tuple) and len(x) > 2 and x[0] in ("S", "K") and isinstance(x[2], tuple):
+                            for v_ in x[2]:
+                                yield from places(v_, path, depth + 1)
+
+                    found = {m_[1]: pth for m_, pth in places(res[2][0])}
+                    for tag, out in lifted.items():
+                        pth = found.get(out[1])
+                        base, ix = (tag.split("[")[0], int(tag.split("[")[1][:-1])) if "[" in tag else (tag, None)
+                        if pth == () and len(lifted) == 1:
+                            continue  # a transparent wrapper: the node is converted to its only child
+                        if pth is None:
+                            problems.append("the converted `%s` is not part of the result" % tag)
+                        elif ix is None and (not pth or pth[-1] != base):
+                            problems.append("the converted `%s` ends up as `%s`%s" % (tag, ".".join(str(x) for x in pth), " (children that are numbers: %s)" % [s_[0] for s_, nu in zip(slots, numeric) if nu] if any(numeric) else ""))
+                        elif ix is not None and (len(pth) < 2 or pth[-2] != base or pth[-1] != ix):
+                            problems.append("the converted `%s` ends up at `%s`" % (tag, ".".join(str(x) for x in pth)))
+                if unsupported:
+                    break
+            if unsupported:
+                if not unsupported.startswith("panics"):
+                    ctx.note("ast::%s::%s: conversion outside the evaluator's subset (%s)" % (enum, vname, unsupported))
+                continue
+            decided += 1
+            ctx.check(R, "lifting/%s::%s/children-keep-their-places" % (enum, vname), not problems, "; ".join(sorted(set(problems))[:2]) or "every child is converted into the field of the same name, lists in order (%d worlds)" % worlds, site(IRL, fn))
+    ctx.floor(R, "node kinds whose conversion was evaluated", decided, 10)
+
+
 def run(ctx):
     rule_expansions(ctx)
     rule_tokens(ctx)
     rule_kind_tables(ctx)
+    eval_ir_lifting(ctx)
     ctx.rules["C13.3"] = "the lifting turns while/if into header/branch blocks with the targets and fall-through sets of C12.2 (shared rule)"
     sub = type(ctx)(ctx.pid, ctx.tier)
     c12.rule_lifting(sub)
